@@ -35,7 +35,7 @@ func init() {
 	}})
 }
 
-func (p *c10) NumCases(tier string, seed int64) int { return tierN(tier, 1500, 40000) }
+func (p *c10) NumCases(tier string, seed int64) int { return tierN(tier, 4000, 160000) }
 
 func (p *c10) gen(seed int64, idx int) *yang.Stmt {
 	r := core.CaseRng(seed, "C10", idx)
